@@ -546,6 +546,7 @@ def gen_write_value(rng, bench, obj, prop, idx):
             return make_any([wrap(target, v)]), 'right', False
     how = rng.choice(['null', 'other-atom', 'other-atom', 'range', 'two', 'empty', 'foreign-cons', 'bad-element', 'fixed-length', 'cons-for-atom'])
     tk = sdt_of(target if not issubclass(target, (C.Array, C.List)) else target.subtype)
+    scalar_atom = tk[0] == 'atom' and not issubclass(target, (C.Array, C.List))
     if how == 'null':
         # Null is a legal value for datatypes that have a null alternative (e.g. PriorityValue): not "wrong" there
         wrong = tk[0] == 'atom' or issubclass(target, (C.Array, C.List))
@@ -554,9 +555,9 @@ def gen_write_value(rng, bench, obj, prop, idx):
         return make_any([P.Unsigned(tk[3] + rng.choice([1, 1000]))]), 'out-of-range', True
     if how == 'two':
         a = rng.choice(atom_samples())(rng)
-        return make_any([a, rng.choice(atom_samples())(rng)]), 'two-atoms', not issubclass(target, (C.Array, C.List))
+        return make_any([a, rng.choice(atom_samples())(rng)]), 'two-atoms', scalar_atom
     if how == 'empty':
-        return make_any([]), 'empty', not issubclass(target, (C.Array, C.List))
+        return make_any([]), 'empty', scalar_atom
     if how in ('foreign-cons', 'cons-for-atom'):
         o2 = rng.choice(bench.objects)
         cands = [p for p in o2._properties.values() if prop_kind(p.datatype) == 'cons' and p.datatype is not target]
@@ -809,13 +810,342 @@ def cases(rng, tier):
     return out
 
 
+# ------------------------------------------------------------------ direct (implementation-only) predicate
+def snap(bn):
+    """{oid number: {pid name: abstract value}} of every object except the local device (observed through its encoders)"""
+    out = {}
+    for num, o, props in bn.table():
+        out[num] = {p.identifier: v for p, v in props}
+    return out
+
+
+def val_items(v):
+    """items the whole stored value encodes to, or None if some element does not encode"""
+    if v[0] == 's':
+        return elem_items(v[1])
+    if v[0] in ('pylist', 'lst', 'arr'):
+        out = []
+        for el in v[-1]:
+            it = elem_items(el)
+            if it is None:
+                return None
+            out += it
+        return out
+    return None
+
+
+def flat(items):
+    out = [len(items)]
+    for it in items:
+        out += it
+    return out
+
+
+def rp(bn, oid, pid, idx):
+    A = B()['A']
+    req = A.ReadPropertyRequest(objectIdentifier=oid, propertyIdentifier=pid)
+    if idx is not None:
+        req.propertyArrayIndex = idx
+    io, _ = bn.exchange(req)
+    return io, c_reply(bn, io)
+
+
+def grown_default_unencodable(prop, v, idx=None):
+    """the known-finding predicate: array of a constructed subtype without prototype, holding default-constructed
+    elements (from an index-0 grow) that do not encode"""
+    e = B()
+    P, C = e['P'], e['C']
+    dt = prop.datatype
+    if not (issubclass(dt, C.Array) and not issubclass(dt.subtype, P.Atomic) and dt.prototype is None):
+        return False
+    if proto_of(dt)[0] != 'b' or v[0] != 'arr':
+        return False
+    if idx is None or idx == 0:
+        return any(el[0] == 'b' for el in v[2])
+    return 1 <= idx <= len(v[2]) and v[2][idx - 1][0] == 'b'
+
+
+def check_read_reply(bn, d, rep, before, fail):
+    """C: what a ReadProperty must answer, from the state before"""
+    C = B()['C']
+    oid, pid, idx = tuple(d['oid']), d['pid'], d['idx']
+    robj = bn.dev.localDevice if oid == ('device', 4194303) else bn.find(oid)
+    if robj is None:
+        if rep != [2, 1, 31]:
+            fail('unknown-object-wrong-reply', d)
+        return
+    prop = robj._properties.get(pid)
+    if prop is None:
+        if rep != [2, 2, 32]:
+            fail('unknown-property-wrong-reply', d)
+        return
+    v = before[oid_num(robj.objectIdentifier)].get(pid)
+    if v is None:
+        return        # a device-object property outside the restricted set
+    head = [1, oid_num(robj.objectIdentifier), pid_num(pid), c_idx(idx)]
+    if v[0] == 'none':
+        if rep[0] in (0, 1, 5):
+            fail('absent-property-answered', d)
+        return
+    if issubclass(prop.datatype, C.Array) and v[0] == 'arr':
+        els = v[2]
+        known = grown_default_unencodable(prop, v, idx)
+        if idx is None:
+            want = val_items(v)
+        elif idx == 0:
+            want = [[0, 2, len(els)]]
+        elif 1 <= idx <= len(els):
+            want = elem_items(els[idx - 1])
+        else:
+            if rep != [2, 2, 42]:
+                fail('bad-index-wrong-reply', d)
+            return
+        if want is None or rep != head + flat(want):
+            fail('array-read-wrong', d, known_grow=known, want=(head + flat(want))[:30] if want is not None else None)
+        return
+    if idx is None:
+        want = val_items(v)
+        if want is None or rep != head + flat(want):
+            fail('read-wrong-value', d, want=(head + flat(want))[:30] if want is not None else None)
+
+
+def embed(rep):
+    """a ReadProperty reply as the (kind, payload) ReadPropertyMultiple must embed; None if it cannot be embedded"""
+    if rep[0] == 1:
+        return [0] + rep[4:]
+    if rep[0] == 2 and rep[1] != 0:
+        return [1] + rep[1:3]
+    return None
+
+
+def parse_rpm(rep):
+    """[5, n, (oid, m, (pid, idx, 0, k, items*3k | 1, c, e)*m)*n] -> [(oid, [(pid, idx, payload)])]"""
+    out, i = [], 2
+    for _ in range(rep[1]):
+        oid, m = rep[i], rep[i + 1]
+        i += 2
+        els = []
+        for _ in range(m):
+            pid, idx, kind = rep[i], rep[i + 1], rep[i + 2]
+            i += 3
+            if kind == 1:
+                els.append((pid, idx, [1] + rep[i:i + 2])); i += 2
+            elif rep[i] == -9:
+                els.append((pid, idx, [0] + rep[i:i + 2])); i += 2
+            else:
+                k = rep[i]
+                els.append((pid, idx, [0] + rep[i:i + 1 + 3 * k])); i += 1 + 3 * k
+        out.append((oid, els))
+    return out
+
+
+def check_rpm(bn, d, rep, fail):
+    specs = [(tuple(o), [tuple(x) for x in refs]) for o, refs in d['specs']]
+    answers, embeddable = [], True
+    for oid, refs in specs:
+        robj = bn.dev.localDevice if oid == ('device', 4194303) else bn.find(oid)
+        per = []
+        for pid, idx in refs:
+            if pid in ('all', 'required', 'optional'):
+                if robj is None:
+                    per.append(('special-unknown', pid, idx, None))
+                    continue
+                exp = {}
+                for q, p in robj._properties.items():
+                    if pid == 'required' and p.optional: continue
+                    if pid == 'optional' and not p.optional: continue
+                    _, r1 = rp(bn, oid, q, idx)
+                    em = embed(r1)
+                    if em is None:
+                        embeddable = False
+                    exp[pid_num(q)] = em
+                per.append(('special', pid, idx, exp))
+            else:
+                _, r1 = rp(bn, oid, pid, idx)
+                em = embed(r1)
+                if em is None:
+                    embeddable = False
+                per.append(('one', pid, idx, em))
+        answers.append((oid_num(robj.objectIdentifier) if robj is not None else oid_num(oid), per))
+    if rep[0] != 5:
+        if embeddable:
+            fail('rpm-refused-although-each-read-answers', d)
+        return
+    if not embeddable:
+        return
+    try:
+        got = parse_rpm(rep)
+    except Exception:
+        fail('rpm-unparsable', d)
+        return
+    if [g[0] for g in got] != [a[0] for a in answers]:
+        fail('rpm-wrong-objects', d)
+        return
+    for (onum, els), (_, per) in zip(got, answers):
+        k = 0
+        for j, (kind, pid, idx, exp) in enumerate(per):
+            nxt = per[j + 1] if j + 1 < len(per) else None
+            if kind == 'one' or kind == 'special-unknown':
+                want = exp if kind == 'one' else [1, 1, 31]
+                if k >= len(els) or els[k][0] != pid_num(pid) or els[k][1] != c_idx(idx) or els[k][2] != want:
+                    fail('rpm-element-differs-from-readproperty', d, ref=[pid, idx], got=list(els[k])[:3] if k < len(els) else None, want=want and want[:20])
+                    return
+                k += 1
+            else:
+                seen = set()
+                while k < len(els) and els[k][0] in exp and els[k][0] not in seen and els[k][1] == c_idx(idx):
+                    q = els[k][0]
+                    if exp[q] == [1, 2, 32] and nxt is not None and nxt[0] == 'one' and pid_num(nxt[1]) == q and nxt[2] == idx:
+                        break       # an absent property is left out of the expansion: this element answers the next reference
+                    seen.add(q)
+                    if els[k][2] != exp[q]:
+                        fail('rpm-element-differs-from-readproperty', d, ref=[pid, idx], prop=q, got=els[k][2][:20], want=exp[q] and exp[q][:20])
+                        return
+                    k += 1
+                for q, em in exp.items():
+                    if q in seen or q == 371:
+                        continue
+                    if em is not None and em != [1, 2, 32]:
+                        fail('rpm-selector-omits-property', d, ref=[pid, idx], prop=q)
+                        return
+        if k != len(els):
+            fail('rpm-extra-elements', d)
+            return
+
+
+def run_direct_history(hs, failures, stats, stop_at=None, verbose=False):
+    import random
+    C = B()['C']
+    hr = random.Random(hs)
+    bn = bench()
+    new_history(hr, bn)
+    nops = hr.randint(10, 14)
+    for k in range(nops):
+        req, q, d = gen_op(hr, bn)
+        before = snap(bn)
+        io, errs = bn.exchange(req)
+        rep = c_reply(bn, io)
+        after = snap(bn)
+        d = dict(d, reply=rep[:40])
+        stats['evaluations'] += 1
+        stats['replies'][str(rep[:1] if rep[0] in (0, 1, 5) else rep[:3])] += 1
+        if verbose:
+            print(k, d)
+
+        def fail(kind, d=d, **kw):
+            f = {'kind': kind, 'history_seed': hs, 'op_index': k, 'op': {x: y for x, y in d.items() if x != 'tags'}}
+            f.update(kw)
+            failures.append(f)
+        if rep[0] < 0:
+            fail('no-or-unknown-reply')
+            continue
+        if d['op'] != 'write':
+            if after != before:
+                fail('read-changed-state')
+            if d['op'] == 'read':
+                check_read_reply(bn, d, rep, before, fail)
+            else:
+                check_rpm(bn, d, rep, fail)
+            continue
+        # ---- writes
+        oid, pid, idx = tuple(d['oid']), d['pid'], d['idx']
+        obj = bn.find(oid)
+        onum = oid_num(oid)
+        if rep != [0]:
+            if after != before:
+                fail('refused-write-changed-state')
+        else:
+            diff = [(o, p) for o in after for p in after[o] if after[o][p] != before[o].get(p)]
+            if any(x != (onum, pid) for x in diff):
+                fail('write-changed-other-property', changed=[list(x) for x in diff][:5])
+        if obj is None:
+            if rep != [2, 1, 31]:
+                fail('unknown-object-wrong-reply')
+            continue
+        prop = obj._properties.get(pid)
+        if prop is None:
+            if rep != [2, 2, 32]:
+                fail('unknown-property-wrong-reply')
+            continue
+        v = before[onum].get(pid)
+        if v is None:
+            continue
+        if rep == [0] and d['wrong']:
+            fail('wrong-datatype-accepted')
+            continue
+        isarr = issubclass(prop.datatype, C.Array)
+        n = len(v[2]) if v[0] == 'arr' else None
+        right = d['value'] in ('right', 'length')
+        if right and v[0] != 'none' and rep != [0]:
+            index_ok = (idx is None) or (isarr and n is not None and 0 <= idx <= n)
+            if not prop.mutable and index_ok and rep != [2, 2, 40] and not (d['tags'] == [[0, 0, 0, '']]):
+                fail('read-only-wrong-reply')
+            if isarr and n is not None and idx is not None and idx > n and rep != [2, 2, 42]:
+                fail('bad-index-wrong-reply')
+        if rep == [0]:
+            stats['acked'] += 1
+            # write-then-read: same tags come back
+            io2, rep2 = rp(bn, oid, pid, idx)
+            stats['evaluations'] += 1
+            wtags = [tuple(t) for t in d['tags']]
+            if not right:
+                # a value that was not produced by the library's encoder from a value of the datatype (leniently
+                # accepted forms such as an omitted empty list): compare through its decoded form re-encoded
+                try:
+                    target = prop.datatype.subtype if (isarr and idx is not None) else prop.datatype
+                    back = req.propertyValue.cast_out(target)
+                    wtags = valgen.canon_tags(make_any([wrap(target, back)]).tagList.tagList)
+                except Exception:
+                    pass
+            rtags = valgen.canon_tags(io2.ioResponse.propertyValue.tagList.tagList) if (io2.ioResponse is not None and rep2[0] == 1) else None
+            v2 = after[onum].get(pid)
+            known = grown_default_unencodable(prop, v2, None) if v2 is not None else False
+            if isarr and idx == 0:
+                m = int(d['tags'][0][3], 16) if d['tags'] and d['tags'][0][1] == 2 else None
+                if rtags != wtags or v2[0] != 'arr' or v2[1] != m or len(v2[2]) != m:
+                    fail('length-write-not-read-back', known_grow=False)
+                elif m and m > (n or 0):
+                    io3, rep3 = rp(bn, oid, pid, m)
+                    io4, rep4 = rp(bn, oid, pid, None)
+                    if rep3[0] != 1 or rep4[0] != 1:
+                        fail('grown-array-unreadable', known_grow=known, replies=[rep3[:3], rep4[:3]])
+            elif rtags != wtags:
+                fail('write-then-read-differs', known_grow=known and idx is None, read=rep2[:12])
+            if snap(bn) != after:
+                fail('read-changed-state')
+    bn.clear()
+
+
 def direct(rng, tier, focus=()):
-    return [], {'evaluations': 0, 'distinct_nontrivial': 0}
+    import collections
+    B(); classes()
+    failures = []
+    stats = {'evaluations': 0, 'acked': 0, 'replies': collections.Counter(), 'histories': 0}
+    H = 1500 if tier == 'thorough' else 260
+    seeds = [rng.getrandbits(48) for _ in range(H)]
+    for hs in seeds:
+        run_direct_history(hs, failures, stats)
+        stats['histories'] += 1
+    stats['replies'] = dict(stats['replies'])
+    stats['distinct_nontrivial'] = stats['acked']
+    stats['samples'] = [{'direct': 'history', 'seed': seeds[0]}]
+    return failures, stats
 
 
 def classify(failure):
+    if failure.get('known_grow') and failure['kind'] in ('grown-array-unreadable', 'array-read-wrong', 'write-then-read-differs'):
+        return 'C15-grow-constructed-array'
     return None
 
 
 def replay(payload):
+    B(); classes()
+    f = payload.get('failure')
+    if f and 'history_seed' in f:
+        failures, stats = [], {'evaluations': 0, 'acked': 0, 'replies': __import__('collections').Counter(), 'histories': 0}
+        run_direct_history(f['history_seed'], failures, stats, verbose=True)
+        print('failures re-observed:')
+        for x in failures:
+            print(' ', x)
+        return
     print('replay', payload)
